@@ -120,6 +120,9 @@ def judge_state(ctx, tree, now, case):
         wants[f] = (hr, want)
         forms = [("with-root", [root, "-sf", os.path.join(root, f)], None), ("without-root", ["-sf", os.path.join(root, f)], None)]
         nforms += 1
+        if "/" in f and nforms <= 6:   # named relatively from the folder it lies in (a working directory inside the history)
+            forms.append(("relative-to-own-folder", ["-sf", f.rsplit("/", 1)[1]], os.path.join(root, f.rsplit("/", 1)[0])))
+            forms.append(("dot-relative-to-own-folder", ["-sf", "./" + f.rsplit("/", 1)[1]], os.path.join(root, f.rsplit("/", 1)[0])))
         if nforms <= 2:   # other ways of naming the same file
             forms += [("relative-to-cwd", ["-sf", f], root), ("through-symlink", ["-sf", os.path.join(link, f)], None),
                       ("with-root-through-symlink", [link, "-sf", os.path.join(link, f)], None)]
